@@ -12,10 +12,10 @@ HYB = "hybrid: "
 def add(pid, cat, text, note, technique, design):
     P[pid] = dict(cat=cat, text=text, note=note, technique=technique, design=design)
 
-add("C01", "exploration", "bounded stand-in only: the contract `read_query(to_sql(ops)) ≡ ops.eval(data)` is stated on the real DBHandle.read_query and checked at run time over an enumerated corpus (all operator pairs, tables ≤3 rows; triples in thorough). Nothing is proved: the meaning lives in SQLite and pandas.",
-    BOUNDED_TB, "run-time contract on the real function over an exhaustively enumerated small scope (bounded stand-in, not proved)", "§5 C01")
-add("C03", "exploration", "bounded stand-in only: contract `not raises ⇒ frames_equiv(polars result, pandas result)` on the real Polars executor for eager/lazy inputs and both lazy-eval modes, over the enumerated corpus. Nothing is proved.",
-    BOUNDED_TB, "run-time contract on the real function over an enumerated small scope (bounded stand-in, not proved)", "§5 C03")
+add("C01", "other", HYB + "PROVED: the SQL text pieces of seven operator translations (select_rows, rename, map_columns, project GROUP BY, order_rows ORDER BY/DESC/LIMIT, extend OVER clause + term dependencies, SQLite right-join emulation), the term layout routine and identifier quoting -- which pieces are written where, for all nodes and requested column sets. BOUNDED (the meaning lives in SQLite and pandas): the contract `read_query(to_sql(ops)) ≡ ops.eval(data)` is stated on the real DBHandle.read_query and checked at run time over an enumerated corpus (all operator pairs, tables ≤3 rows; triples in thorough).",
+    PYVC_TB + "; " + BOUNDED_TB, "contract-based deductive verification of the SQL text generation glue (VCs from the real AST, z3) + run-time contract on the real function over an exhaustively enumerated small scope (bounded stand-in) for the semantics", "§5 C01")
+add("C03", "other", HYB + "PROVED: for table / order_rows / select_columns / rename_columns / select_rows steps both executors hand their frame library the node's own arguments (declared columns in order; sort keys with ascending flags from `reverse`; limit). BOUNDED (the meaning lives in polars and pandas): contract `not raises ⇒ frames_equiv(polars result, pandas result)` on the real Polars executor for eager/lazy inputs and both lazy-eval modes, over the enumerated corpus.",
+    PYVC_TB + "; frame-library calls under assumed contracts; " + BOUNDED_TB, "contract-based deductive verification of the executors' step glue (VCs from the real AST, z3) + run-time contract on the real function over an enumerated small scope (bounded stand-in) for the semantics", "§5 C03")
 add("C06", "proof", "the merge obligation `ext(merged,T) = ext(ops2, ext(ops1,T))` for all assignment maps and tables is discharged by z3 from the real body of try_to_merge_ops (6 paths), with finite-scope refutation + native replay when it fails; builder forwarding / collapsing obligations as listed in the evidence.",
     PYVC_TB + "; ghost semantics: simultaneous-assignment extend, ev(e,T) depends only on cols(e) ∪ window columns (frame axiom)", "contract-based deductive verification: VCs generated from the real AST, discharged by z3/cvc5; counter-models replayed natively", "§5 C06")
 add("C08", "other", HYB + "PROVED for all inputs: Pandas and Polars _table_step always narrow/order the input to the declared columns (eager or lazy, extra or permuted input columns), _select_columns_step and _rename_columns_step hand the library exactly the node's arguments; BOUNDED: declared columns = returned columns at every node of every enumerated pipeline on Pandas, Polars, SQLite.",
@@ -67,7 +67,7 @@ add("C25", "other", HYB + "PROVED for all inputs: ResultCache.get hits only for 
 add("C26", "other", HYB + "PROVED for all inputs: the 10 builders forward every argument (join-key check flag included) through an eliminated order_rows and to the constructors, select_columns validates against its own step also when collapsing; BOUNDED: the constructors' rule checks on every enumerated prefix x violating/conforming step per rule, and no accepted pipeline raises a rule error at evaluation.",
     PYVC_TB + "; constructors' rule checks not under contract; " + BOUNDED_TB, "contract-based deductive verification of the forwarding obligations (VCs from the real AST, z3) + run-time contracts over an enumerated scope for the rule checks", "§5 C26")
 
-PROOF_PROPS = {"C04", "C06", "C07", "C08", "C09", "C10", "C11", "C14", "C16", "C17", "C18", "C19", "C20", "C22", "C23", "C24", "C25", "C26", "C27"}  # properties with discharged obligations
+PROOF_PROPS = {"C01", "C03", "C04", "C06", "C07", "C08", "C09", "C10", "C11", "C14", "C16", "C17", "C18", "C19", "C20", "C22", "C23", "C24", "C25", "C26", "C27"}  # properties with discharged obligations
 NA = [("C02", "no PostgreSQL server or formal PostgreSQL semantics in the sandbox: no contract within reach can be discharged or even checked boundedly; dialect text paths are exercised under C04/C16 on SQLite as a labelled surrogate, which does not decide C02")]
 
 def main():
